@@ -235,13 +235,14 @@ func (r *Result) Finish(verifDir, tier string, seed int64, wall float64, known *
 	for k, v := range extra {
 		cov[k] = v
 	}
+	assumptions := append([]string{"the analysed source is what gets built (go list ./... of /repo with default tags; thorough tier adds windows, darwin, 386)", "standard-library synchronisation, file-system and regexp primitives behave as documented"}, r.Assumptions...)
 	ev := map[string]any{
 		"property_id": r.Property,
 		"tier":        tier,
 		"seed":        seed,
 		"level":       "other",
 		"coverage":    cov,
-		"assumptions": r.Assumptions,
+		"assumptions": assumptions,
 		"wall_s":      wall,
 		"violations":  len(open),
 	}
